@@ -93,7 +93,7 @@ class DatasetBuilder:
             self.schema = name.schema.model_copy()
             self._tables = {n: t for (n, t) in name.tables.items()}
             self._indexes = {
-                n: pd.Index(name.tables[n].column(id_col_name(n)).to_numpy(zero_copy_only=False))
+                n: _id_index(name.tables[n].column(id_col_name(n)))
                 for n in name.schema.entities.keys()
             }
         else:
@@ -316,7 +316,7 @@ class DatasetBuilder:
             table = pa.concat_tables([table, new_tbl], promote_options="permissive")
 
         self._tables[cls] = table
-        self._indexes[cls] = pd.Index(table.column(id_name).to_numpy(zero_copy_only=False))
+        self._indexes[cls] = _id_index(table.column(id_name))
 
     def add_relationships(
         self,
@@ -1009,6 +1009,19 @@ def _expand_and_align_list_array(
 
     # we can now construct the array — these offsets point into the source array
     return pa.ListArray.from_arrays(offsets, lists.values, mask=mask)
+
+
+def _id_index(ids: pa.ChunkedArray) -> pd.Index:
+    """
+    Make the lookup index for an entity ID column.
+    """
+    arr = ids.to_numpy(zero_copy_only=False)
+    if arr.dtype.kind == "u" and arr.dtype.itemsize < 8:
+        # Pandas looks signed keys up in an unsigned index by converting them
+        # without a range check (2**16 + 5 finds 5 in a uint16 index), so
+        # unknown IDs would resolve to known entities; a signed index is exact.
+        arr = arr.astype(np.int64)
+    return pd.Index(arr)
 
 
 def _empty_rel_table(types: list[str]) -> pa.Table:
